@@ -914,7 +914,7 @@ func prefixGrid(thorough bool) []caseSpec {
 		for v := 3; v <= 13; v++ {
 			for _, codec := range []string{"none", "gzip"} {
 				for _, lay := range []layout{{1, 3}, {3, 2}} {
-					for _, d := range rangeInts(-2, 3) {
+					for _, d := range rangeInts(-4, 3) {
 						out = append(out, caseSpec{V: v, Codec: codec, NT: lay.nt, NP: lay.np, Shape: fmt.Sprintf("bigpack:%d", d)})
 					}
 					for _, d := range []int{0, 1} {
@@ -925,7 +925,7 @@ func prefixGrid(thorough bool) []caseSpec {
 		}
 	} else {
 		for v := 9; v <= 13; v++ {
-			for _, d := range []int{-1, 0, 1, 2} {
+			for _, d := range rangeInts(-3, 2) {
 				out = append(out, caseSpec{V: v, Codec: "none", NT: 1, NP: 3, Shape: fmt.Sprintf("bigpack:%d", d)})
 			}
 		}
